@@ -222,10 +222,13 @@ def get_folding_profile_section(
         str_ += "Could not determine folding profile\n"
     else:
         delta = round(Decimal(window[2]),2)
+        start = round(Decimal(window[0]), 3)
+        tolerance = Decimal("0.005")
         for (ph, dg) in profile:
             ph = round(Decimal(ph), 3)
             if ph >= window[0] and ph <= window[1]:
-                if ph % delta < 0.05 or ph % delta > 0.95:
+                remainder = (ph - start) % delta
+                if remainder < tolerance or delta - remainder < tolerance:
                     str_ += "{0:>6.2f}{1:>10.2f}\n".format(ph, dg)
         str_ += "\n"
     if ph_opt is None or dg_opt is None:
